@@ -38,7 +38,8 @@ Window == 2 * WeekLen
 
 VARIABLES
   now,      \* current timeslot (environment)
-  up,       \* server process running
+  up,       \* "down" | "failed" | "catchup" (files loaded, UDP live, start-up
+            \* rotations in progress) | "up" (all listeners live)
   gca,      \* [avail, key]   registered GCA key
   equip,    \* id -> authorization
   pkidx,    \* key -> id (public key lookup)
@@ -142,8 +143,11 @@ RecvStep(d) ==
 
 AsReport(d) == [id |-> d.id, ts |-> d.ts, v |-> d.v, sig |-> d.sig]
 
+Running == up \in {"catchup", "up"}
+Serving == up = "up"
+
 RecvReport(d) ==
-  /\ up
+  /\ Running
   /\ IF RecvStep(d) = "integrate"
      THEN LET st == Integrate([live |-> live, reports |-> disk.reports],
                               AsReport(d), equip, offset)
@@ -161,7 +165,7 @@ RecvReport(d) ==
 RegisterOK(k, sig) == ~gca.avail /\ Valid(sig, TempKey)
 
 Register(k, sig) ==
-  /\ up
+  /\ Serving
   /\ IF RegisterOK(k, sig)
      THEN /\ gca' = [avail |-> TRUE, key |-> k]
           /\ disk' = [disk EXCEPT !.gcafile = k]
@@ -203,7 +207,7 @@ ApplyAuth(st, a) ==
                   !.bans   = @ \cup {a.id}]
 
 Authorize(a) ==
-  /\ up
+  /\ Serving
   /\ IF AuthOutcome(a) \in {"new", "conflict"}
      THEN LET st == ApplyAuth([equip |-> equip, pkidx |-> pkidx, bans |-> bans,
                                live |-> live, impact |-> impact], a)
@@ -253,7 +257,7 @@ CurState == [live |-> live, impact |-> impact, offset |-> offset,
              archive |-> archive, stats |-> disk.stats, equip |-> equip]
 
 Rotate ==
-  /\ up
+  /\ Running
   /\ LET st == RotateState(CurState)
      IN  /\ live' = st.live /\ impact' = st.impact /\ offset' = st.offset
          /\ archive' = st.archive
@@ -268,7 +272,7 @@ CatchUpDue(ero, t)  == t - ero >= CatchUpBound
 -----------------------------------------------------------------------------
 (* Impact data collector: second critical section, one device. *)
 ImpactSet(id, ts, bits) ==
-  /\ up
+  /\ Serving
   /\ IF ts >= offset /\ ts - offset < Window /\
         (id \in DOMAIN impact \/ "impactnil" \in Defects)
      THEN impact' = [impact EXCEPT ![id] = Put(@, ts, bits)]
@@ -310,7 +314,7 @@ SyncKnown(id) == id \in DOMAIN live /\ id \in DOMAIN equip
 ServerIdx(k) == {i \in 1..Len(servers) : servers[i].key = k}
 
 AuthorizeServer(as) ==
-  /\ up
+  /\ Serving
   /\ IF ~Valid(as.sig, gca.key) THEN UNCHANGED servers
      ELSE IF ServerIdx(as.key) = {} THEN servers' = Append(servers, as)
      ELSE LET i == CHOOSE i \in ServerIdx(as.key) : TRUE
@@ -325,7 +329,7 @@ MigrationOK(m) ==
   /\ \A i \in 1..Len(m.servers) : Valid(m.servers[i].sig, m.newgca)
 
 Migrate(m) ==
-  /\ up
+  /\ Serving
   /\ IF MigrationOK(m) THEN migr' = Put(migr, m.equip, m) ELSE UNCHANGED migr
   /\ UNCHANGED <<now, up, gca, equip, pkidx, bans, offset, live, impact,
                  archive, servers, disk, seen>>
@@ -380,30 +384,43 @@ StartOK(d) ==
               /\ UpperGuardOK(r.ts, LoadedOffset(d)))
             => IndexOK(r.ts, LoadedOffset(d))
 
-Start ==
-  /\ ~up
-  /\ StartOK(disk)
-  /\ LET e   == LoadedEquip(disk)
-         off == LoadedOffset(disk)
-         r   == FoldReports([live |-> e.live, reports |-> disk.reports],
-                            disk.reports, e.equip, off)
-         c   == CatchUp([live |-> r.live, impact |-> e.impact, offset |-> off,
-                         archive |-> disk.stats, stats |-> disk.stats,
-                         equip |-> e.equip], now)
-     IN  /\ up' = TRUE
-         /\ gca' = LoadGCA(disk)
-         /\ equip' = e.equip /\ pkidx' = e.pkidx /\ bans' = e.bans
-         /\ offset' = c.offset /\ live' = c.live /\ impact' = c.impact
-         /\ archive' = c.archive
-         /\ servers' = <<>> /\ migr' = EmptyFn
-         /\ disk' = [disk EXCEPT !.keys = "ok", !.reports = r.reports,
-                                 !.stats = c.stats]
-         /\ seen' = [id \in DOMAIN e.equip |-> EmptyFn]
+(* Start-up, as the code performs it: load the files (StartLoad), then the  *)
+(* blocking catch-up loop of rotations with the UDP listener already live,  *)
+(* then the remaining listeners (StartDone).                                *)
+StartLoad ==
+  /\ up = "down"
+  /\ IF ~StartOK(disk)
+     THEN /\ up' = "failed"
+          /\ UNCHANGED <<gca, equip, pkidx, bans, offset, live, impact, archive,
+                         servers, migr, disk, seen>>
+     ELSE LET e   == LoadedEquip(disk)
+              off == LoadedOffset(disk)
+              r   == FoldReports([live |-> e.live, reports |-> disk.reports],
+                                 disk.reports, e.equip, off)
+          IN  /\ up' = "catchup"
+              /\ gca' = LoadGCA(disk)
+              /\ equip' = e.equip /\ pkidx' = e.pkidx /\ bans' = e.bans
+              /\ offset' = off /\ live' = r.live /\ impact' = e.impact
+              /\ archive' = disk.stats
+              /\ servers' = <<>> /\ migr' = EmptyFn
+              /\ disk' = [disk EXCEPT !.keys = "ok", !.reports = r.reports]
+              /\ seen' = [id \in DOMAIN e.equip |-> EmptyFn]
   /\ UNCHANGED now
 
+StartFailed ==
+  /\ up = "failed" /\ up' = "down"
+  /\ UNCHANGED <<now, gca, equip, pkidx, bans, offset, live, impact, archive,
+                 servers, migr, disk, seen>>
+
+StartDone ==
+  /\ up = "catchup" /\ ~CatchUpDue(offset, now)
+  /\ up' = "up"
+  /\ UNCHANGED <<now, gca, equip, pkidx, bans, offset, live, impact, archive,
+                 servers, migr, disk, seen>>
+
 Close ==
-  /\ up
-  /\ up' = FALSE
+  /\ Running
+  /\ up' = "down"
   /\ UNCHANGED <<now, gca, equip, pkidx, bans, offset, live, impact, archive,
                  servers, migr, disk, seen>>
 
@@ -416,7 +433,7 @@ FreshDisk == [keys |-> "absent", gcafile |-> "absent", auths |-> <<>>,
               reports |-> <<>>, stats |-> <<>>]
 
 Init ==
-  /\ now = 0 /\ up = FALSE
+  /\ now = 0 /\ up = "down"
   /\ gca = [avail |-> FALSE, key |-> NoKey]
   /\ equip = EmptyFn /\ pkidx = EmptyFn /\ bans = {} /\ offset = 0
   /\ live = EmptyFn /\ impact = EmptyFn /\ archive = <<>>
@@ -474,7 +491,7 @@ BansMonotone == [][bans \subseteq bans']_vars
 
 (* C07 *)
 NoAuthBeforeRegister == ~gca.avail => equip = EmptyFn /\ disk.auths = <<>>
-KeyNeverChanges == [][gca.avail /\ up /\ up' => gca' = gca]_vars
+KeyNeverChanges == [][gca.avail /\ Running /\ up' # "down" => gca' = gca]_vars
 EquipOnlySigned == \A id \in DOMAIN equip : Valid(equip[id].sig, gca.key)
 
 (* C04: what a restart would produce, compared with memory after catch-up  *)
@@ -508,7 +525,7 @@ StripImp(a) == [i \in 1..Len(a) |->
 StripView(v) == [v EXCEPT !.archive = StripImp(@)]
 
 RestartEquiv ==
-  up => /\ StartOK(disk)
+  Serving => /\ StartOK(disk)
         /\ StripView(RestartView(disk, now)) = StripView(MemAfterCatchUp(now))
 StartAlwaysOK == StartOK(disk)
 =============================================================================
